@@ -7,7 +7,7 @@
     [fmem]/[pmem] = "the entry exists". *)
 From Coq Require Import List Ascii String ZArith NArith Bool Permutation.
 From Shexer Require Import Lib.PyStr Lib.Dict Gen.Consts Spec.Rdf Model.Tracker Model.Profiler
-     Spec.Counts Proofs.DictLemmas Proofs.ProfileChar.
+     Spec.Counts Proofs.DictLemmas Proofs.ProfileChar Proofs.ProfileOrder.
 Import ListNotations.
 Local Open Scope N_scope.
 
@@ -306,6 +306,39 @@ Theorem P1_annotate_all_ok_perm : forall tau inv (I : insts) (G G' : graph),
 Proof. exact annotate_all_ok_perm. Qed.
 Print Assumptions P1_annotate_all_ok_perm.
 
+(** ** key orders: every dictionary lists its keys in first-occurrence order
+
+    [fsub f p] / [psub d p] / [csub m k] are "the inner dictionary, or the
+    empty one".  Cleaning keeps the orders (it only filters). *)
+
+Theorem P1_annotate_all_order_char : forall tau inverse (I : insts) (G : graph) ID,
+  annotate_all tau inverse G (adapt I) = inl ID ->
+  forall i e, dget ID i = Some e ->
+    dkeys (i_direct e) = inst_props Direct G i /\
+    (forall p, dkeys (fsub (i_direct e) p) = inst_keys Direct tau I G i p) /\
+    (forall p m, dget (i_direct e) p = Some m -> dkeys m = inst_keys Direct tau I G i p) /\
+    (inverse = true ->
+     dkeys (i_inverse e) = inst_props Inverse G i /\
+     (forall p, dkeys (fsub (i_inverse e) p) = inst_keys Inverse tau I G i p) /\
+     (forall p m, dget (i_inverse e) p = Some m -> dkeys m = inst_keys Inverse tau I G i p)).
+Proof. exact annotate_all_order_char. Qed.
+Print Assumptions P1_annotate_all_order_char.
+
+Theorem P1_profile_order_char : forall cfg (I : insts) (G : graph) ID P1 C0,
+  NoDup (dkeys I) ->
+  annotate_all (p_tau cfg) (p_inverse cfg) G (adapt I) = inl ID ->
+  raw_profile cfg I ID = (P1, C0) ->
+  forall c e, dget P1 c = Some e ->
+    dkeys (c_direct e) = class_props Direct I G c /\
+    (forall p, dkeys (psub (c_direct e) p) = class_type_keys Direct (p_tau cfg) I G c p) /\
+    (forall p k, ckeys (csub (psub (c_direct e) p) k) = class_cards Direct (p_tau cfg) I G c p k) /\
+    (p_inverse cfg = true ->
+     dkeys (c_inverse e) = class_props Inverse I G c /\
+     (forall p, dkeys (psub (c_inverse e) p) = class_type_keys Inverse (p_tau cfg) I G c p) /\
+     (forall p k, ckeys (csub (psub (c_inverse e) p) k) = class_cards Inverse (p_tau cfg) I G c p k)).
+Proof. exact profile_order_char. Qed.
+Print Assumptions P1_profile_order_char.
+
 (** ** elementary facts about the declarative counts *)
 
 Theorem P1_occ_le_class_count : forall dir tau (I : insts) (G : graph) c p k card,
@@ -394,6 +427,14 @@ Example P1_example_spec :
   occ Inverse ex_tau ex_I ex_G ex_D ex_p c_IRI_ELEM_TYPE (CKn 1) = 2 /\
   occ Inverse ex_tau ex_I ex_G ex_D ex_p (ex_lab ex_C) (CKn 1) = 2 /\
   occ Inverse ex_tau ex_I ex_G ex_D ex_p (ex_lab ex_D) (CKn 1) = 1.
+Proof. vm_compute. repeat split; reflexivity. Qed.
+
+Example P1_example_orders :
+  class_props Direct ex_I ex_G ex_C = [ex_tau; ex_p] /\
+  class_type_keys Direct ex_tau ex_I ex_G ex_C ex_p =
+    [c_IRI_ELEM_TYPE; ex_lab ex_C; ex_lab ex_D; ex_xsd_string; c_BNODE_ELEM_TYPE] /\
+  class_cards Direct ex_tau ex_I ex_G ex_C ex_p c_IRI_ELEM_TYPE = [CKn 2; CKplus] /\
+  class_cards Direct ex_tau ex_I ex_G ex_C ex_tau ex_C = [CKn 1].
 Proof. vm_compute. repeat split; reflexivity. Qed.
 
 (** ... and the model run succeeds and stores the same numbers *)
